@@ -485,6 +485,6 @@ SUBS = [
 
 MANIFEST = {
     "technique": "model-based property testing: Hypothesis draws histories (models x filters x shared/fresh metrics object); oracle = forty independent reference metric functions, the statement's identities, the stand-alone operations, and fresh-object agreement after every step",
-    "level_text": "Generated histories of up to 5 analyses over up to 3 models; every report entry is compared with an independently computed definition, sizes and ratios with the denominator table, identities as set equations, and reused objects with fresh ones. Sampling only.",
+    "level_text": "Generated histories of up to 5 analyses over up to 3 models; every report entry is compared with an independently computed definition, sizes and ratios with the denominator table, identities as set equations, and reused objects with fresh ones. Sampling only. Also: in-place edits between analyses (compared with a fresh build), C18's bipartite big constraints in flat models, the one-way backstop for strict-complex, ratio-boundary enumeration. A sample of every sub-check additionally runs in a `python -OO` child with the root logger at DEBUG.",
     "level_note": "Trusted: reference() and the METRICS table in vf/props/c17.py (display names and denominators transcribed from the metric definitions), vf/logic.py.",
 }
